@@ -181,6 +181,8 @@ def _graph_diff(a: str, b: str) -> dict:
 def run_case(item):
     """pool_map worker: item = (kind, seed, seed_shift)."""
     kind, seed, shift = item
+    if kind == "timing":
+        return run_timing_case(item)
     if kind == "overlap":
         project, meta = gen_overlap(seed)
     else:
@@ -286,3 +288,106 @@ def run_text_scenario() -> dict:
         out["texts"].append([x[3] for x in r.rejected])
     out["project"] = p.to_json()
     return out
+
+
+# ---------------------------------------------------------------------------------------------
+# timing bookkeeping of the scheduler: start/stop stamps consulted by amend()'s freshness test and
+# by the post-run input check.  A consumer reads a file WITHOUT having declared it, its producer
+# stops, unrelated steps start and stop (possibly overlapping), then the consumer amends the file.
+# With -j1 producer and consumer never overlap; with -j6 and the gate orders below they do, and
+# only the stamps make the engine rerun the consumer.  The consumer's output folds everything it
+# read, so a missed rerun shows in the files and in the digests of the graph.
+# ---------------------------------------------------------------------------------------------
+
+def gen_timing(seed) -> tuple[e3.Project, dict]:
+    rng = random.Random(f"c02-timing-{seed}")
+    npair = rng.randint(1, 2)
+    nun = rng.randint(2, 3)
+    scripts = {"plan.py": []}
+    commands = {}
+    plan = scripts["plan.py"]
+    workers = []
+    meta = {"pairs": [], "unrelated": []}
+    for i in range(npair):
+        f, cout, w = f"f{i}.txt", f"c{i}.txt", f"c{i}.py"
+        workers.append(w)
+        plan.append({"op": "run", "label": f"p{i}", "shell": True, "out": [f]})
+        commands[f"p{i}"] = [{"op": "write", "path": f, "content": f"produced {i} {seed}\n"}]
+        body = [{"op": "read", "paths": [f], "required": False}, {"op": "gate", "name": f"g{i}"},
+                {"op": "amend", "inp": [f]}]
+        if rng.random() < 0.5:
+            body.append({"op": "read", "paths": [f], "required": False})
+        body.append({"op": "write", "path": cout})
+        scripts[w] = body
+        plan.append({"op": "run", "label": f"./{w}", "out": [cout]})
+        meta["pairs"].append((f"p{i}", f"./{w}", f"g{i}"))
+    for j in range(nun):
+        plan.append({"op": "run", "label": f"u{j}", "shell": True, "out": [f"u{j}.txt"]})
+        commands[f"u{j}"] = [{"op": "auto"}]
+        meta["unrelated"].append(f"u{j}")
+    if rng.random() < 0.6:
+        plan.append({"op": "run", "label": "z", "shell": True,
+                     "inp": [f"c{i}.txt" for i in range(npair)], "out": ["z.txt"]})
+        commands["z"] = [{"op": "auto"}]
+    rng.shuffle(plan)
+    plan.insert(0, {"op": "static", "paths": sorted(workers)})
+    return e3.Project(sources={}, program={"scripts": scripts, "commands": commands}), meta
+
+
+def timing_orders(meta: dict, seed, n: int = 4) -> list:
+    """Gate orders: consumers start first and wait at their gates; producers run and stop;
+    unrelated steps start and stop in a seeded interleaving (some overlapping); then the
+    consumers' gates open."""
+    orders = []
+    for k in range(n):
+        rng = random.Random(f"c02-timing-order-{seed}-{k}")
+        order = ["start:./plan.py", "end:./plan.py"]
+        order += [f"start:{c}" for _, c, _ in meta["pairs"]]
+        prod = [f"start:{p}" for p, _, _ in meta["pairs"]]
+        rng.shuffle(prod)
+        order += prod
+        order += [f"end:{p}" for p, _, _ in meta["pairs"]] if k % 2 == 0 else []
+        # unrelated steps: a random interleaving of their start and end events (start before end)
+        ev = []
+        for u in meta["unrelated"]:
+            ev += [("s", u), ("e", u)]
+        rng.shuffle(ev)
+        seen, inter = set(), []
+        for kind, u in ev:
+            if kind == "s":
+                seen.add(u)
+                inter.append(f"start:{u}")
+            elif u in seen:
+                inter.append(f"end:{u}")
+            else:
+                inter += [f"start:{u}"]
+                seen.add(u)
+                ev.append(("e", u))
+        inter += [f"end:{u}" for u in meta["unrelated"] if f"end:{u}" not in inter]
+        order += inter
+        if k % 2 == 1:
+            order += [f"end:{p}" for p, _, _ in meta["pairs"]]
+            # one more unrelated stop after the producers stopped, if any is still running
+        gates = [g for _, _, g in meta["pairs"]]
+        rng.shuffle(gates)
+        order += gates
+        orders.append(order)
+    return orders
+
+
+def run_timing_case(item):
+    kind, seed, _ = item
+    project, meta = gen_timing(seed)
+    scheds = [("j1", dict(njob=1))]
+    for k, order in enumerate(timing_orders(meta, seed)):
+        scheds.append((f"j6-{k}", dict(njob=6, schedule={"order": order, "policy": "fifo",
+                                                          "points": ["start", "end"]})))
+    scheds.append(("j6-seed", dict(njob=6, schedule={"seed": 7 + (seed % 1000), "points": ["start", "end"]})))
+    try:
+        res = run_schedules(project, schedules=scheds, resumed=False)
+    except Exception as e:  # noqa: BLE001
+        return {"item": item, "meta": {}, "crash": f"{type(e).__name__}: {e}", "project": project.to_json()}
+    diffs = compare(res, texts=False)
+    return {"item": item, "meta": {}, "cls": res["j1"]["cls"], "nrej": 0, "diffs": diffs,
+            "max_running": max(r["max_running"] or 0 for r in res.values()),
+            "project": project.to_json() if diffs else None}
